@@ -223,6 +223,51 @@ def w_unionfind(cfg, tier):
     return col.result()
 
 
+def w_uf_real(cfg, tier):
+    """The real union-find decoder (cluster growth + peeling cannot be encoded: its control flow is the
+    syndrome) on errors of weight <= 2 whose positions and letters are solver-chosen and REALISED."""
+    from panqec.decoders import UnionFindDecoder
+    from panqec.error_models import PauliErrorModel
+    code = common.make_code(cfg.split(' ')[1])
+    n = code.n
+    col = hz.Collector(cfg)
+    col.encoded(UnionFindDecoder.decode)
+    em = PauliErrorModel(1 / 3, 1 / 3, 1 / 3)
+    eng = Engine(name=cfg, max_paths=20000)
+    with eng:
+        q1 = eng.integer('q1', 0, n - 1)
+        q2 = eng.integer('q2', 0, n - 1)
+        l1 = eng.integer('l1', 1, 3)          # 1=X 2=Z 3=Y
+        l2 = eng.integer('l2', 0, 3)          # 0 = no second error
+        eng.assume_base((q1 <= q2).t)
+
+        def fn():
+            e = np.zeros(2 * n, dtype=np.uint8)
+            for q, l in ((int(q1), int(l1)), (int(q2), int(l2))):
+                if l & 1:
+                    e[q] ^= 1
+                if l & 2:
+                    e[n + q] ^= 1
+            s = code.measure_syndrome(e)
+            c = np.asarray(UnionFindDecoder(code, em, 0.1).decode(s))
+            return e.tolist(), c.shape == (2 * n,) and not code.measure_syndrome((e + c.astype(np.uint8)) % 2).any()
+        ps = eng.explore(fn)
+    col.absorb(eng)
+    bad = []
+    w = [None]
+    for p in ps:
+        if p.exc is not None:
+            bad.append(z3_and(p.pc))
+            continue
+        e, ok = p.value
+        bad.append(z3_and(p.pc + [z3.BoolVal(not ok)]))
+        if not ok and w[0] is None:
+            w[0] = dict(error=e)
+    col.prove('C05/unionfind-real/correction-reproduces-the-syndrome', eng.base, z3_or(bad), lambda m: w[0],
+              f'{len(ps)} realised errors of weight <= 2 (all positions, all X/Y/Z letters), real union-find')
+    return col.result()
+
+
 def w_sweepmatch(cfg, tier):
     """Composition only: Z part from the sweeper, X part from the matcher, sum mod 2."""
     mods = _install()
@@ -313,7 +358,7 @@ def w_constructible(cfg, tier):
 
 
 def worker(cfg, tier='quick'):
-    return {'matching': w_matching, 'bposd': w_bposd, 'unionfind': w_unionfind, 'sweepmatch': w_sweepmatch,
+    return {'matching': w_matching, 'bposd': w_bposd, 'unionfind': w_unionfind, 'sweepmatch': w_sweepmatch, 'uf-real': w_uf_real,
             'constructible': w_constructible}[cfg.split()[0]](cfg, tier)
 
 
@@ -333,7 +378,7 @@ def replay(path):
                 dec = DECODERS[w['decoder']](code, PauliErrorModel(0.2, 0.3, 0.5), 0.1)
                 c0 = np.asarray(dec.decode(np.zeros(code.n_stabilizers, dtype=np.uint8)))
                 bad = c0.shape != (2 * code.n,) or bool(c0.any())
-        elif 'error' in w and cfg.split()[0] in ('matching', 'bposd', 'unionfind'):
+        elif 'error' in w and cfg.split()[0] in ('matching', 'bposd', 'unionfind', 'uf-real'):
             # run the REAL decoder (real PyMatching / ldpc / union-find) on the counterexample error
             from panqec.error_models import PauliErrorModel
             from panqec.decoders import MatchingDecoder, BeliefPropagationOSDDecoder, UnionFindDecoder
@@ -399,6 +444,8 @@ def configs(tier):
     out += [f'bposd {c} noupdate' for c in bp]
     out += ['bposd RotatedPlanar2DCode(2,2) update', 'bposd Planar2DCode(2,2) update']
     out += ['unionfind Toric2DCode(2,2)', 'unionfind Toric2DCode(2,3)'] + (['unionfind Toric2DCode(3,4)'] if tier != 'quick' else [])
+    out += ['uf-real Toric2DCode(2,2)', 'uf-real Toric2DCode(2,3)', 'uf-real Toric2DCode(3,3)'] + \
+        (['uf-real Toric2DCode(3,4)', 'uf-real Toric2DCode(4,4)'] if tier != 'quick' else [])
     out += ['sweepmatch Toric3DCode(2,2,2)', 'sweepmatch Planar3DCode(2,2,2)', 'sweepmatch RotatedPlanar3DCode(2,2,2)',
             'sweepmatch RotatedToric3DCode(2,2,2)']
     return out
